@@ -1,9 +1,84 @@
+import Drx.Vwsc
+import Drx.VwscSpec
 import Drx.Drv.Util
 namespace Drx.Drv.Score
-open Drx Drx.Drv
+open Drx Drx.Drv Drx.Vwsc Drx.Vwsc.Spec
 
-/-- commands of the `score` family (stub: nothing implemented yet) -/
+def framesJ (fs : List Frame) : J := .arr (fs.map Frame.toJ)
+
+def parseLayout (s : String) : Option Layout :=
+  if s = "d4" then some .d4 else if s = "d5" then some .d5 else none
+
+/-- `off:hex/off:hex/…` -/
+def parseDeltas (s : String) : Option (List (Nat × Bytes)) :=
+  (s.splitOn "/").mapM fun t =>
+    match t.splitOn ":" with
+    | [o, h] => do let o ← parseNat o; let b ← bytesOfHex h; some (o, b)
+    | _ => none
+
+/-- records separated by `;`: `S` = same, `D` = deltas [], otherwise a delta list; `-` = no records -/
+def parseRecs (s : String) : Option (List Rec) :=
+  if s = "-" then some [] else
+  (s.splitOn ";").mapM fun t =>
+    if t = "S" then some Rec.same
+    else if t = "D" then some (Rec.deltas [])
+    else (parseDeltas t).map Rec.deltas
+
+/-- `marker,u1,nmarkers,lastMarker,m1:m2:…|.,trailinghex` -/
+def parseWrapper (s : String) : Option Wrapper :=
+  match s.splitOn "," with
+  | [m, u, n, l, ms, tr] => do
+    let m ← parseInt m; let u ← parseInt u; let n ← parseInt n; let l ← parseInt l
+    let ms ← if ms = "." then some [] else (ms.splitOn ":").mapM parseInt
+    let tr ← bytesOfHex tr
+    some ⟨m, u, n, l, ms, tr⟩
+  | _ => none
+
+def stepsJ (r : Steps × Nat) : J :=
+  .obj [("records", .nat r.1.records), ("deltas", .nat r.1.deltas), ("copied", .nat r.1.copied), ("frames", .nat r.1.frames),
+        ("alloc", .nat r.2)]
+
+/-- commands of the `score` family (see harness/c08.py, harness/c09.py) -/
 def run : List String → Option String
+  | ["parse", h] => do
+    let b ← bytesOfHex h
+    some (rJ framesJ (parseVwscFile b))
+  | ["parsedata", h] => do
+    let b ← bytesOfHex h
+    some (rJ framesJ (parseVwsc b))
+  | ["channels", lay, h] => do
+    let lay ← parseLayout lay; let b ← bytesOfHex h
+    some (rJ Frame.toJ (parseChannels lay b))
+  | ["steps", h] => do
+    -- C10 twin of parse_vwsc_data: loop iteration counters + size of the one allocation
+    let b ← bytesOfHex h
+    some (stepsJ (parseVwscSteps b)).render
+  | ["stepsobs", h] => do
+    -- what harness/c08.py can observe of the real loops: all counters when the parse succeeds, else only the record count
+    let b ← bytesOfHex h
+    let s := (parseVwscSteps b).1
+    match parseVwsc b with
+    | .ok _ => some (J.obj [("ok", .bool true), ("records", .nat s.records), ("deltas", .nat s.deltas), ("copied", .nat s.copied),
+                            ("frames", .nat s.frames)]).render
+    | .error _ => some (J.obj [("ok", .bool false), ("records", .nat s.records)]).render
+  | ["allocok", h] => do
+    let b ← bytesOfHex h
+    some (J.bool (decide ((parseVwscSteps b).2 < 4 * 1024 * 1024))).render
+  | ["ser", lay, cc, fc, u1, u2, w, recs] => do
+    -- the Lean encoder of the theorems applied to the harness's spec object
+    let lay ← parseLayout lay; let cc ← parseNat cc; let fc ← parseInt fc; let u1 ← parseInt u1; let u2 ← parseInt u2
+    let recs ← parseRecs recs
+    let f : ScoreFile := ⟨lay, cc, fc, u1, u2, recs⟩
+    let inner := serialise f
+    if w = "-" then
+      some (J.obj [("valid", .bool (decide f.Valid)), ("hex", J.hex inner)]).render
+    else do
+      let w ← parseWrapper w
+      some (J.obj [("valid", .bool (decide f.Valid && decide (w.Valid inner))), ("hex", J.hex (wrap w inner))]).render
+  | ["fold", lay, cc, recs] => do
+    -- right-hand side of C08.decode_is_fold: the fields of each successive channel state
+    let lay ← parseLayout lay; let cc ← parseNat cc; let recs ← parseRecs recs
+    some (rJ framesJ (expectedFrames lay (zeros (cc * lay.frameSize)) recs))
   | _ => none
 
 end Drx.Drv.Score
